@@ -48,8 +48,16 @@ static pint sign_out (int c, int xo, int yo) {
 	default: return c;
 	}
 }
+/* op `getk`: the identity of the STORED key object the comparator is shown (second argument) when it answers "equal", and
+ * whether the first argument is the caller's probe */
+static int eq_seen, eq_id, probe_wrong; static const void *the_probe;
+static void note_eq (pconstpointer a, pconstpointer b, int c) {
+	if (the_probe != NULL && a != the_probe) probe_wrong = 1;
+	if (c == 0) { eq_seen = 1; eq_id = b ? ((const KO *) b)->id : -1; }
+}
 static pint cmp_data (pconstpointer a, pconstpointer b, ppointer data) {
 	const KO *x = a ? a : &null_key, *y = b ? b : &null_key;
+	note_eq (a, b, x->ord < y->ord ? -1 : x->ord > y->ord ? 1 : 0);
 	if (withdata && data != &data_cookie) { puts ("DATA-MISMATCH"); exit (4); }
 	if (!withdata && data != NULL) { puts ("DATA-MISMATCH"); exit (4); }
 	if (probing && plen < 256) path[plen++] = y->ord;
@@ -57,6 +65,7 @@ static pint cmp_data (pconstpointer a, pconstpointer b, ppointer data) {
 }
 static pint cmp_plain (pconstpointer a, pconstpointer b) {
 	const KO *x = a ? a : &null_key, *y = b ? b : &null_key;
+	note_eq (a, b, x->ord < y->ord ? -1 : x->ord > y->ord ? 1 : 0);
 	if (probing && plen < 256) path[plen++] = y->ord;
 	return sign_out (x->ord < y->ord ? -1 : x->ord > y->ord ? 1 : 0, x->ord, y->ord);
 }
@@ -267,6 +276,15 @@ int main (void) {
 			KO probe = { atoi (a1), -1, KMAGIC };
 			VO *v = p_tree_lookup (tree, &probe);
 			if (v) printf ("v%d\n", v->id); else puts ("nil");
+		} else if (!strcmp (op, "getk") && n == 2) {
+			/* which key OBJECT is stored under this ordinal: the one the comparator receives as its second argument when it
+			 * says equal (keys are distinct heap objects; an equal key inserted later must have replaced the stored one) */
+			KO probe = { atoi (a1), -1, KMAGIC };
+			eq_seen = 0; probe_wrong = 0; the_probe = &probe;
+			p_tree_lookup (tree, &probe);
+			the_probe = NULL;
+			if (probe_wrong) printf ("PROBE-NOT-FIRST-ARGUMENT ");
+			if (!eq_seen) puts ("nil"); else if (eq_id < 0) puts ("kN"); else printf ("k%d\n", eq_id);
 		} else if (!strcmp (op, "each") && n == 2) {
 			visits = 0; stop_at = atoi (a1); vlen = 0; vlog[0] = 0;
 			p_tree_foreach (tree, visit, &visits);
